@@ -416,3 +416,110 @@ class Effects:
             if isinstance(n, ast.Name):
                 out |= roots.get(n.id, {n.id})
         return out
+
+
+# ---------------------------------------------------------------------------------------------------------------------
+# self-test: the summaries of a tiny synthetic package, expected answers written out (run by every thorough tier)
+SRC = '''
+import json
+from dataclasses import dataclass
+
+COUNT = 0
+
+
+@dataclass
+class Rec:
+    a: int
+    b: list
+
+
+class A:
+    def __init__(self):
+        self.items = []
+        self.n = 0
+
+    def pure(self, x):
+        return [y + 1 for y in x]
+
+    def store(self, x):
+        self.n = x
+
+    def grow(self, xs, v):
+        xs.append(v)
+
+    def via_alias(self, box):
+        inner = box.items
+        inner.append(1)
+
+    def fresh_only(self, x):
+        out = []
+        for y in x:
+            out.append(y)
+        return out
+
+    def calls_store(self, x):
+        self.store(x)
+
+    def ping(self, o, k):
+        if k:
+            self.pong(o, k - 1)
+
+    def pong(self, o, k):
+        o.n = k
+        self.ping(o, k)
+
+    def glob(self):
+        global COUNT
+        COUNT += 1
+
+    def lib(self, g, s):
+        g.node(s.name)
+
+    def virt(self, o):
+        return o.describe()
+
+    def ctor(self, x):
+        return Rec(x, [])
+
+    def dumps(self, x):
+        return json.dumps(x)
+
+
+class B:
+    def describe(self):
+        return "b"
+
+
+class C:
+    def describe(self):
+        self.seen = True
+        return "c"
+'''
+WANT = {"pure": set(), "store": {"self"}, "grow": {"xs"}, "via_alias": {"box"}, "fresh_only": set(), "calls_store": {"self"},
+        "ping": {"o"}, "pong": {"o"}, "glob": None, "lib": {"g"}, "virt": {"o"}, "ctor": set(), "dumps": set()}
+
+
+
+
+def selftest() -> list[str]:
+    """[] if every summary of the synthetic package is the expected one, else the disagreements"""
+    import pathlib
+    import tempfile
+    import textwrap
+    from .model import Program
+    bad = []
+    with tempfile.TemporaryDirectory() as d:
+        pkg = pathlib.Path(d) / "hugr"
+        pkg.mkdir()
+        (pkg / "__init__.py").write_text("")
+        (pkg / "m.py").write_text(textwrap.dedent(SRC))
+        prog = Program(pkg)
+        ef = Effects(prog)
+        m = prog.modules["hugr.m"]
+        a = m.classes["A"]
+        for name, want in WANT.items():
+            got = ef.mutates(a.methods[name], a, m)
+            got = None if got is None else set(got)
+            if got != want:
+                bad.append(f"effects self-test: A.{name} -> {got}, expected {want}")
+    return bad
